@@ -27,6 +27,8 @@ def dispatch (j : Json) : Json :=
   | "C08" => Driver.C09.handle j
   | "C01" => Driver.C03.handle j
   | "C02" => Driver.C03.handle j
+  | "C07" => Driver.C03.handle j
+  | "C06" => Driver.C03.handle j
   | p => Json.mkObj [("bad-op", Json.str p)]
 
 partial def loop (hin hout : IO.FS.Stream) : IO Unit := do
